@@ -146,6 +146,8 @@ def check(run):
     nseg0 = len(bscns)
     bscns += brokerlib.segmented(auth=[{"u": "alice", "p": "pw1", "m": ""}, {"u": "bob", "p": "pw2", "m": "tenantB"}, {"u": "carol", "p": "", "m": ""}],
                                  cuts=(1, 2, 3) if not thorough else (1, 2, 3, 4, 5, 8, 13))
+    brokerlib.framing_model(run)
+    bscns += brokerlib.framing(run, 40 if not thorough else 400, auth=[{"u": "alice", "p": "pw1", "m": ""}, {"u": "bob", "p": "pw2", "m": "tenantB"}])
     run.log("broker level: %d credential scenarios, %d with segmented packets" % (nseg0, len(bscns) - nseg0))
     btpath, crashes = brokerlib.execute(run, bscns, "c16b", shards=12)
     if crashes:
